@@ -362,9 +362,7 @@ def w_bfs(d, rep):
     name = "%s:%s" % (d["part"], d["name"])
     s0, t0 = rep.states, rep.transitions
     done = bfs([(mk_state(cfg), "init")], cfg.alphabet, _apply_fn(d, cfg, rep), canon, d["depth"], rep, clone=clone)
-    rep.part(name, states=rep.states - s0, transitions=rep.transitions - t0, depth_completed=done)
-    if done < d["depth"]:
-        rep.notes[name] = "state space closed at depth %d" % done
+    rep.part(name, states=rep.states - s0, transitions=rep.transitions - t0, depth_completed=done, closed=bool(done < d["depth"]))
 
 
 def run(tier, seed, rep, only=None):
